@@ -146,6 +146,9 @@ struct Net {
 	claimable_seen: Vec<(usize, usize)>,
 	/// claim_deadline of the last PaymentClaimable the node's user handled, per (node, hash)
 	deadlines: HashMap<(usize, usize), u32>,
+	/// set after a restart from a snapshot the monitors have overtaken: LDK closes those channels, the
+	/// rest of the script (on-chain resolution) is outside this engine
+	ended: bool,
 }
 
 fn is_resolution(k: &str) -> bool {
@@ -693,7 +696,9 @@ impl Net {
 			self.saves[i] = Some((bytes, now));
 		}
 		let (bytes, at) = self.saves[i].clone().unwrap();
-		if at != now { return false; }
+		let stale = at != now;
+		if stale && mode != "stale" { return false; }
+		if !stale && mode == "stale" { return false; }
 		// the process dies: its connections and everything queued on them are gone
 		for j in 0..self.nodes.len() {
 			if j != i && *self.connected.get(&Self::key(i, j)).unwrap_or(&false) {
@@ -730,7 +735,13 @@ impl Net {
 		self.persisters[i].updates.store(before, Ordering::SeqCst);
 		self.saves[i] = Some((bytes, before));
 		self.restarts += 1;
-		self.ev(json!({"ev":"restart","node":i}));
+		self.ev(json!({"ev":"restart","node":i,"stale":stale}));
+		if stale {
+			// what the user sees first: the list of recent payments; then the run ends
+			self.log_recent(i, true);
+			self.ended = true;
+			return true;
+		}
 		self.drain();
 		// the other ends notice
 		self.log_recent(i, true);
@@ -759,6 +770,7 @@ impl Net {
 	}
 
 	fn step(&mut self, op: &Value) {
+		if self.ended { return; }
 		let name = op["op"].as_str().unwrap_or("");
 		let n = self.nodes.len();
 		let node = op["node"].as_u64().unwrap_or(0) as usize;
@@ -968,7 +980,7 @@ fn build_net(run: u64, seed: u64, cfg: &Value, log: &Log) -> Net {
 	let mut net = Net {
 		nodes, cfgs, persisters, queues: HashMap::new(), connected, log: log.clone(), chans, hashes: Vec::new(),
 		regs: HashMap::new(), hold: vec![false; n], saves: vec![None; n], last_recent: vec![json!([]); n], run, seed,
-		time0, time: time0, executed: 0, skipped: 0, restarts: 0, closed_seen: false, claimable_seen: Vec::new(), deadlines: HashMap::new(),
+		time0, time: time0, executed: 0, skipped: 0, restarts: 0, closed_seen: false, claimable_seen: Vec::new(), deadlines: HashMap::new(), ended: false,
 	};
 	let _ = net.cfgs;
 	let c = lightning::verif::consts();
